@@ -347,7 +347,7 @@ fn no_inst() -> Res {
     Res { k: "err".into(), err_kind: Some("NoInstance".into()), ..Default::default() }
 }
 
-pub fn run_child(plan_path: &str, inc_idx: usize) -> ! {
+pub fn run_child(plan_path: &str, inc_idx: usize, clock_override: Option<u64>) -> ! {
     let plan: Plan = match std::fs::read(plan_path).ok().and_then(|b| serde_json::from_slice(&b).ok()) {
         Some(p) => p,
         None => {
@@ -383,7 +383,7 @@ pub fn run_child(plan_path: &str, inc_idx: usize) -> ! {
     };
     let sim: &'static Sim = Box::leak(Box::new(Sim::new(
         inc.sched.clone(),
-        inc.clock_start_ms,
+        clock_override.unwrap_or(inc.clock_start_ms),
         inc.faults.clone(),
         inc.buggify.clone(),
         inc.trace_io,
@@ -417,7 +417,7 @@ pub fn run_child(plan_path: &str, inc_idx: usize) -> ! {
         t: "start".into(),
         step: 0,
         th: 0,
-        msg: Some(format!("inc={} seed={} sched_seed={}", inc_idx, plan.seed, inc.sched.seed)),
+        msg: Some(format!("inc={} seed={} sched_seed={} clock_ms={}", inc_idx, plan.seed, inc.sched.seed, clock_override.unwrap_or(inc.clock_start_ms))),
         ..Default::default()
     });
 
